@@ -297,15 +297,16 @@ impl<T> RawTable<T> {
         if bucket.in_main {
             self.table.replace_bucket_with(bucket.bucket, f)
         } else if let Some(ref mut lo) = self.leftovers {
-            let items = &mut lo.items;
-            let b = bucket.bucket.clone();
-            lo.table.replace_bucket_with(b, move |t| {
-                let v = f(t);
-                if v.is_none() {
-                    items.reflect_remove(&bucket.bucket);
-                }
-                v
-            })
+            // The cached iterator must hear about the removal _before_ it happens: hashbrown
+            // takes the element out of the bucket and only then runs `f`, which may panic.
+            lo.items.reflect_remove(&bucket.bucket);
+            let still_occupied = lo.table.replace_bucket_with(bucket.bucket, f);
+            if still_occupied {
+                // The element was put back, so it still has to be moved eventually.
+                // `reflect_insert` does not guarantee that, so start over on what is left.
+                lo.items = lo.table.iter();
+            }
+            still_occupied
         } else {
             unreachable!("invalid bucket state");
         }
